@@ -256,6 +256,14 @@ theorem view_energies_sample_map (x s : Rat) :
     viewSpinOverBinary.sampleMul * s + viewSpinOverBinary.sampleAdd = (s + 1) / 2 :=
   view_sampleMap x s
 
+/-- a view object whose vartype coincides with the data's (a `.spin`/`.binary` view kept while the base model changed vartype in
+    place, or re-typed in place itself) passes samples through unchanged — `energies` is then the data's own `energies`;
+    otherwise the generated affine map is applied. Decided per call from the data's *current* vartype. -/
+theorem view_energies_passthrough (T : ViewTables Rat) (view : VT) (d : LBqm Rat) (x : Rat) :
+    (view = d.vt → View.sampleMap T view d x = x) ∧
+    (view ≠ d.vt → View.sampleMap T view d x = (View.tbl T view).sampleMul * x + (View.tbl T view).sampleAdd) := by
+  constructor <;> intro h <;> simp [View.sampleMap, h]
+
 /-- `view_write_eq_convert_edit_back`, `add_linear` (hence `set_linear`, `add_variable`, which are built from it) -/
 theorem view_write_add_linear (b s x : Rat) :
     (viewBinaryOverSpin.addLinLin * b) * s + viewBinaryOverSpin.addLinOff * b = b * ((s + 1) / 2) ∧
